@@ -86,6 +86,29 @@ def build_pssm(sites, protein, pseudo=0.25):
     return motif.counts.normalize(pseudo).log_odds()
 
 
+@st.composite
+def declared_st(draw):
+    """Scores written down directly for `lightmotif.ScoringMatrix(values)`: the four nucleotide columns, and in half
+    of the cases a column for N as well (any value, so a window with N may score above every N-free window)."""
+    w = draw(st.integers(1, 10))
+    cell = st.one_of(st.integers(-8, 8).map(float), st.integers(-32, 32).map(lambda x: x / 4.0))
+    cols = {c: draw(st.lists(cell, min_size=w, max_size=w)) for c in "ACTG"}
+    if draw(st.booleans()):
+        cols["N"] = draw(st.lists(cell, min_size=w, max_size=w))
+    return cols
+
+
+def make_pssm(a, protein=False, wildcard=True):
+    if a.get("declared") and not protein:
+        cols = dict(a["declared"])
+        if not wildcard:
+            # the cells of a StripedScores past the last position are only specified (-inf) when the wildcard
+            # column is -inf (C07); max / argmax / threshold over the whole object are compared under that condition
+            cols["N"] = [float("-inf")] * len(cols["A"])
+        return lightmotif.ScoringMatrix(cols)
+    return build_pssm(a["sites"], protein, a["pseudo"])
+
+
 def pssm_rows(pssm):
     return [[float(x) for x in pssm[i]] for i in range(len(pssm))]
 
@@ -326,7 +349,8 @@ def check_calculate(a, info):
 def _check_calculate(a, info):
     protein, seq, sites, thr_pick = a["protein"], a["seq"], a["sites"], a["thr"]
     info.cls("protein" if protein else "dna")
-    pssm = build_pssm(sites, protein, a["pseudo"])
+    pssm = make_pssm(a, protein, wildcard=False)
+    info.cls("scores-declared-directly", bool(a.get("declared")) and not protein)
     rows, ref = reference(pssm, seq, protein)
     striped = lightmotif.stripe(seq, protein=protein)
     scores = pssm.calculate(striped)
@@ -356,6 +380,7 @@ def calculate_args(draw):
         "thr": draw(st.integers(0, 10 ** 6)),
         "delta": draw(st.sampled_from([0.0, 0.0, 1e-3, -1e-3, 1.0, -5.0])),
         "arm": draw(st.sampled_from([None, None, "generic", "sse2", "avx2"])),
+        "declared": draw(st.one_of(st.none(), st.none(), st.none(), declared_st())),
     }
 
 
@@ -366,10 +391,20 @@ def expected_hits(ref, t):
 
 def check_scan(a, info):
     seq, sites, block = a["seq"], a["sites"], a["block"]
-    pssm = build_pssm(sites, False, a["pseudo"])
+    pssm = make_pssm(a)
+    info.cls("scores-declared-directly", bool(a.get("declared")))
+    if a.get("embed") is not None:
+        # plant the best-scoring word over the WHOLE alphabet (wildcard included) somewhere in the sequence
+        rws = pssm_rows(pssm)
+        word = "".join(DNA[max(range(len(r)), key=lambda j: r[j])] for r in rws)
+        at = a["embed"] % (len(seq) + 1)
+        seq = seq[:at] + word + seq[at:]
+        info.cls("best-word-over-the-whole-alphabet-planted")
     rows, ref = reference(pssm, seq, False)
+    nfree = window_scores_f32(rows, indices("".join(c for c in seq if c != "N"), False))
+    info.cls("some-window-with-N-beats-every-N-free-window", len(ref) > 0 and len(nfree) > 0 and float(ref.max()) > float(nfree.max()))
     finite = [float(x) for x in ref if math.isfinite(x)]
-    t = {"score": (finite[a["thr"] % len(finite)] if finite else 0.0) + a["delta"], "low": -1e6, "default": None, "high": 1e6}[a["thr_kind"]]
+    t = {"score": (finite[a["thr"] % len(finite)] if finite else 0.0) + a["delta"], "top": (max(finite) if finite else 0.0) + min(a["delta"], 0.0), "low": -1e6, "default": None, "high": 1e6}[a["thr_kind"]]
     striped = lightmotif.stripe(seq)
     kwargs = {}
     if t is not None:
@@ -394,10 +429,12 @@ def scan_args(draw):
         "seq": draw(sequence_st(False)),
         "sites": draw(sites_st(False)),
         "pseudo": draw(st.sampled_from([0.1, 0.25, 1.0])),
-        "thr_kind": draw(st.sampled_from(["score", "score", "score", "low", "default", "high"])),
+        "thr_kind": draw(st.sampled_from(["score", "score", "score", "top", "top", "low", "default", "high"])),
         "thr": draw(st.integers(0, 10 ** 6)),
         "delta": draw(st.sampled_from([0.0, 0.0, 1e-3, -1e-3])),
         "block": draw(st.one_of(st.none(), st.integers(1, 8), st.integers(1, 300))),
+        "declared": draw(st.one_of(st.none(), st.none(), declared_st())),
+        "embed": draw(st.one_of(st.none(), st.integers(0, 10 ** 6))),
     }
 
 
@@ -791,7 +828,7 @@ SUBS = [
         st.fixed_dictionaries({"kind": st.sampled_from(BAD_KINDS), "text": st.text(alphabet="ACGT", max_size=6)}), check_bad_arguments, 80, 800),
     Sub("calculate", "sequence (DNA / protein, L 0..200 and around 1024, wildcards) x motif from generated sites (width 1..12) -> ScoringMatrix.calculate on a striped sequence; len, every score (f32 reference in numpy, same summation order), max / argmax / threshold (thresholds at real scores +- 1e-3) compared with the per-position window sums; the whole call chain under the host's dispatcher arm or one forced through the verif-hooks feature (generic / sse2 / avx2); non-trivial = L > 32 (>= 2 striped rows), width >= 2 and >= 1 valid position",
         calculate_args(), check_calculate, 300, 6000),
-    Sub("scan", "DNA sequence x motif x threshold (a real score +- 1e-3, -1e6, default, 1e6) x block_size (default, 1..300) -> lightmotif.scan; (position, score) multiset equals the reference; non-trivial = some but not all positions hit",
+    Sub("scan", "DNA sequence x motif (made from sites or, 1 in 3, a ScoringMatrix declared directly from columns of scores in [-8, 8] with or without a column for N) x threshold (a real score +- 1e-3, the best score of any window, -1e6, default, 1e6) x block_size (default, 1..300) the best-scoring word over the whole alphabet planted in half of the sequences -> lightmotif.scan; (position, score) multiset equals the reference; non-trivial = some but not all positions hit",
         scan_args(), check_scan, 300, 6000),
     Sub("reuse", "one StripedSequence object reused by 1..8 operations (calculate, scan, calculate / scan with the reverse complement of a motif object used before) with up to 4 motifs of different widths (1..30) in a generated order; every result equals the reference for that motif; non-trivial = >= 2 ops, >= 2 distinct widths, L > 32",
         reuse_args(), check_reuse, 200, 4000),
